@@ -172,6 +172,8 @@ struct Ctx {
     max_focus_excess: f64,
     /// violations reported so far per oracle clause (the report keeps the first few of each)
     per_kind: std::collections::BTreeMap<String, u32>,
+    /// devices opened so far (every third one is a *used* device)
+    opened: u64,
 }
 
 impl Ctx {
@@ -223,7 +225,33 @@ impl Ctx {
                 }
             }
         }
+        // every third device is a *used* one: long STMs have been written to both segments before (the shared
+        // write page is left beyond page 0, every page of the memory holds old data). What is played for the STM
+        // under test must not depend on that. The model does not see this history: it computes from the records.
+        self.opened += 1;
+        if self.opened % 3 == 0 {
+            let gp = Self::to_global_raw(&trs, &r, [30.0, 40.0, 150.0]);
+            let long = |k: usize| -> Vec<ControlPoints<1>> {
+                (0..k).map(|j| ControlPoints::new([ControlPoint::new(Point3::new(gp[0] + (j % 50) as f32, gp[1], gp[2]), Phase((j % 251) as u8))], EmitIntensity(0x80))).collect()
+            };
+            let r1 = w.send_dg(FociSTM::new(long(4200), to_div(5120)), usize::MAX).result;
+            let r2 = w.send_dg(
+                autd3_driver::datagram::WithSegment { inner: FociSTM::new(long(9000), to_div(5120)), segment: Segment::S1, transition_mode: None },
+                usize::MAX,
+            )
+            .result;
+            self.out.count(&format!("used-device:{r1}/{r2}"));
+        }
         Dev { w, pose: pose.clone(), pose_line, r, trs, c: c as f64 }
+    }
+
+    fn to_global_raw(trs: &[[f64; 3]], r: &[[f64; 3]; 3], lp: [f64; 3]) -> [f32; 3] {
+        let t0 = trs[0];
+        let mut gp = [0f32; 3];
+        for a in 0..3 {
+            gp[a] = (t0[a] + r[a][0] * lp[0] + r[a][1] * lp[1] + r[a][2] * lp[2]) as f32;
+        }
+        gp
     }
 
     /// global f32 point of a device-local point (mm)
@@ -462,7 +490,7 @@ fn rand_pose(rng: &mut Rng) -> Pose {
 }
 
 pub fn run(args: &Args) {
-    let mut ctx = Ctx { out: Out::new(&args.out), max_multi_ratio: 0.0, max_focus_excess: 0.0, per_kind: Default::default() };
+    let mut ctx = Ctx { out: Out::new(&args.out), max_multi_ratio: 0.0, max_focus_excess: 0.0, per_kind: Default::default(), opened: 0 };
     let thorough = args.tier == "thorough";
     let mut rng = Rng::new(args.seed ^ 0xC07);
     let h = std::f32::consts::FRAC_1_SQRT_2;
